@@ -1285,9 +1285,121 @@ def rule_kindmissing(ctx) -> RuleResult:
             res.report("core.groupby_scan|singleton-shortcut-keeps-nan", f.where(st), f.qualname,
                        f"when '{norm(st.test)[:60]}' the values are returned unscanned for every scan; for the NaN-skipping accumulation (nancumsum) a lone NaN "
                        "must become the identity: groupby_scan([1, nan, 2], by=[0, 1, 2], func='nancumsum') returns [1, nan, 2], NumPy's nancumsum per group gives [1, 0, 2]")
+    # third obligation (block level): chunk_scan is the whole scan of a block.  A `return` whose values do not come out of the scan kernel
+    # (def-use closure without a generic_aggregate call) hands the block on unscanned; that is right for a block *without members* only --
+    # a one-member block still needs the NaN-skipping accumulation to turn a lone NaN into the identity, and the fills to be run.
+    # Accepted guards: a pure emptiness test (`.size == 0`, `.shape[...] == 0`, `len(...) == 0`), a restriction to fills, or an explicit
+    # NaN -> identity substitution in the guarded body.
+    import re as _re
+    from ..astutil import guard_facts
+    cs = ctx.prog.funcs.get("core.chunk_scan")
+    if cs is not None:
+        defs: dict[str, list] = {}
+        for a in walk_own(cs.node):
+            if isinstance(a, ast.Assign):
+                for t in a.targets:
+                    for nm in ast.walk(t):
+                        if isinstance(nm, ast.Name):
+                            defs.setdefault(nm.id, []).append(a.value)
+        def from_kernel(e, seen=None) -> bool:
+            seen = set() if seen is None else seen
+            for x in ast.walk(e):
+                if isinstance(x, ast.Call) and norm(x.func).split(".")[-1] in ("generic_aggregate", "chunk_reduce"):
+                    return True
+                if isinstance(x, ast.Name) and x.id in defs and x.id not in seen:
+                    seen.add(x.id)
+                    if any(from_kernel(v, seen) for v in defs[x.id]):
+                        return True
+            return False
+        pm = parents_map(cs.node)
+        kernel_returns = 0
+        for r in walk_own(cs.node):
+            if not isinstance(r, ast.Return) or r.value is None:
+                continue
+            if from_kernel(r.value):
+                kernel_returns += 1
+                continue
+            n += 1
+            facts = guard_facts(r, pm)
+            pos = [a for a, pol in facts if pol]
+            neg = [a for a, pol in facts if not pol]
+            empt = [a for a in pos if _re.search(r"(\.size|\.shape\[[^\]]+\]|len\(.+\)) == 0$", a)] + [a for a in neg if _re.fullmatch(r"[\w.]+\.size", a)]
+            fills = [a for a in pos if any(k in a for k in ("concat_then_scan", "ffill", "bfill", "is_fill"))]
+            body = pm.get(id(r))
+            btxt = " ".join(norm(b) for b in getattr(body, "body", []) if not isinstance(b, ast.Return))
+            subst = ("np.isnan(" in btxt or "isnull(" in btxt) and ("identity" in btxt)
+            ok = bool(empt or fills or subst)
+            res.inst(f"chunk_scan: unscanned return under {sorted(pos + ['not ' + a for a in neg]) or 'no guard'}: emptiness {bool(empt)}, fills only {bool(fills)}, substitutes {subst}",
+                     f"chunk_scan|bypass|{'+'.join(sorted(pos))[:60]}")
+            if not ok:
+                res.report("core.chunk_scan|unscanned-block-with-members", cs.where(r), cs.qualname,
+                           f"under '{' and '.join(sorted(pos)) or 'no condition'}' the block is handed on without the scan kernel; that guard admits blocks with a member: "
+                           "a one-element chunk holding NaN keeps the NaN under nancumsum where the running total is expected "
+                           "(groupby_scan(dask [1, nan, 2] in chunks of 1, by=[0, 0, 0], func='nancumsum') -> [1, nan, 3]; NumPy: [1, 1, 3])")
+        if kernel_returns == 0:
+            raise AnalysisError("chunk_scan: no return fed by the scan kernel (generic_aggregate) was found (anchor)")
     if n == 0:
         res.notes.append("groupby_scan has no identity shortcut: rule not applicable")
         res.min_instances = 0
+    return res
+
+
+# ---------------------------------------------------------------------------------------------
+# R-SCANEMPTY (C10): a zero-length block is a legal chunking of the scanned axis.
+# chunk_reduce answers a block without valid labels with ONE placeholder label -- a float NaN that "the combine drops again".  The scan
+# pipeline has no such combine: it stores chunk_reduce's `groups` as *codes* (`group_idx=reduced["groups"]`) and later uses them as
+# positions (`.max() + 1`, fancy indexing).  So (a) every function that turns chunk_reduce's groups into the codes of an AlignedArrays
+# leaves early for a block without members (an emptiness test of its own codes that dominates the chunk_reduce call), and (b) the state
+# combiner takes no identity-less reduction (`.max()` / `.min()` without `initial=`) of codes that may be empty.
+def rule_scanempty(ctx) -> RuleResult:
+    import re as _re
+    from ..astutil import guard_facts
+    res = RuleResult("R-SCANEMPTY", "the scan pipeline never takes chunk_reduce's placeholder label of an empty block for a code", min_instances=3)
+    prog = ctx.prog
+    cr = prog.func("core.chunk_reduce")
+    has_placeholder = any(isinstance(a, ast.Assign) and norm(a.targets[0]).replace('"', "'") == "results['groups']"
+                          and any(norm(x) == "np.nan" for x in ast.walk(a.value)) for a in walk_own(cr.node))
+    if not has_placeholder:
+        res.notes.append("chunk_reduce no longer answers an empty block with a NaN placeholder label: rule not applicable")
+        res.min_instances = 0
+        return res
+    n = 0
+    for q, f in sorted(prog.funcs.items()):
+        if isinstance(f.node, ast.Lambda):
+            continue
+        red = {a.targets[0].id: a for a in walk_own(f.node) if isinstance(a, ast.Assign) and len(a.targets) == 1 and isinstance(a.targets[0], ast.Name)
+               and isinstance(a.value, ast.Call) and norm(a.value.func).split(".")[-1] == "chunk_reduce"}
+        if not red:
+            continue
+        for c in calls_in(f.node):
+            g = kwarg(c, "group_idx")
+            if norm(c.func).split(".")[-1] != "AlignedArrays" or g is None:
+                continue
+            src = [nm for nm in red if _re.fullmatch(_re.escape(nm) + r"\[['\"]groups['\"]\]", norm(g))]
+            if not src:
+                continue
+            n += 1
+            call = red[src[0]]
+            # an earlier `if <codes>.size == 0: return ...` at the top level of the function, before the chunk_reduce call
+            guards = [st for st in f.node.body if isinstance(st, ast.If) and st.lineno < call.lineno
+                      and _re.search(r"(\.size|\.shape\[[^\]]+\]|len\(.+\)) == 0", norm(st.test)) and any(isinstance(b, ast.Return) for b in st.body)]
+            res.inst(f"{q}: chunk_reduce(...)['groups'] stored as codes; leaves early for a block without members: {bool(guards)}", f"{q}|codes")
+            if not guards:
+                res.report(f"{q}|placeholder-label-as-code", f.where(c), q,
+                           f"'{norm(c)[:80]}' stores chunk_reduce's labels as codes, but for a zero-length block chunk_reduce returns its placeholder [nan] (float64): "
+                           "the state combiner then computes pd.RangeIndex(nan + 1) -- groupby_scan(dask array with chunks (2, 0, 1), func='nancumsum') raises TypeError inside a task")
+    sb = prog.funcs.get("aggregations.scan_binary_op")
+    if sb is None:
+        raise AnalysisError("scan_binary_op is gone (anchor)")
+    for c in calls_in(sb.node):
+        if isinstance(c.func, ast.Attribute) and c.func.attr in ("max", "min") and "group_idx" in norm(c.func.value):
+            n += 1
+            ok = kwarg(c, "initial") is not None
+            res.inst(f"scan_binary_op: '{norm(c)[:50]}' has an identity for empty codes: {ok}", f"scan_binary_op|{norm(c.func)[:40]}")
+            if not ok:
+                res.report(f"aggregations.scan_binary_op|identity-less-reduction-of-codes|{norm(c.func.value)}", sb.where(c), sb.qualname,
+                           f"'{norm(c)}' raises for the codes of a zero-length block (\"zero-size array to reduction operation maximum which has no identity\"): "
+                           "groupby_scan(dask array with chunks (3, 0), func='nancumsum') fails inside a task, the eager scan of the same data works")
     return res
 
 
